@@ -157,7 +157,7 @@ ENTRIES = {
              "observation, skip or strict refuse), itertools.combinations = every position subset once, space ids = the screen's mapping ids, "
              "correlation matrix symmetric / unit diagonal where defined / index-wise definition over the full space: each transcribed numpy "
              "expression equals its loop definition; the literal 'unit diagonal' clause is refuted for a single sample (NaN), as coded. Tied to the "
-             "code by 700+ generated cases per run through the real functions, the real Screen and real h5 files.",
+             "code by 700+ generated cases per run through the real functions, the real Screen and real h5 files. In addition calculate_synergy, create_single_treatment_effect_map / _array, generate_full_combinatoric_space, the ModelEvaluation constructor, properties and mse / mse_variance / inter_chain_mse_variance / mean_predictions, predict_viability_avg and calculate_mse are re-translated from /repo's source on every run and C20_model_is_source_* prove the model equal to the translations (numpy reductions are declared primitives).",
         note="Trusted: Coq kernel, extraction, OCaml driver, harness; floats modelled as rationals (tolerance 1e-9), sqrt as oracle (unit diagonal "
              "under sqrt(S_i)^2 = S_i pointwise), h5py/string codec identity, pandas merge = keyed lookup, thetas stubbed as row-wise functions; "
              "entries that are 0/0 over the reals are not compared; correlation_matrix centres on the across-sample mean, so one sample gives NaN "
